@@ -7,11 +7,11 @@ from harness import common, gens, impl
 from harness.common import Stream, hexb
 
 PID = "C19"
-LEAN_MODULES = ["Astm.Proofs.C19", "Astm.State.C19"]
+LEAN_MODULES = ["Astm.Proofs.C19", "Astm.State.C19", "Astm.Surface.C19"]
 THEOREMS = [
     "Astm.C19.sendLines_eq_spec", "Astm.C19.sends_enq_lines_then_eot", "Astm.C19.writes_are_prefix",
     "Astm.C19.eot_iff_all_acked", "Astm.C19.send_is_stop_and_wait", "Astm.C19.example_run",
-    "Astm.C19.anchored_code_keeps_no_other_state",
+    "Astm.C19.anchored_code_keeps_no_other_state", "Astm.C19.anchored_code_keeps_its_signatures",
 ]
 RULE = ("files of 0-6 lines (frames, blank lines anywhere incl. first/last, CRLF / LF / no line ending, lines with inner "
         "CR) x reply scripts over {ACK, NAK, garbage, ACK+extra bytes, empty-then-close} at every position, run through the "
